@@ -570,10 +570,6 @@ package sizes
 //@ property C10: ScanRepositoryUsingGraph ScanRepositoryUsingGraph$1$1
 //@ property C18: ScanRepositoryUsingGraph
 
-//@ assumed func CollectReferences
-//@   trust A-CALLEE-UNVERIFIED
-//@   modifies everything
-
 //@ func (*NameStyle).Set
 //@   modifies *n
 //@   ensures result == nil ==> *n >= 0 && *n <= 2
@@ -610,3 +606,47 @@ package sizes
 //@ assumed func (*HistorySize).JSON
 //@   trust A-CALLEE-UNVERIFIED
 //@   pure
+
+// ---------------------------------------------------------------- grouper.go, graph.go: references (C07, C01)
+// CollectReferences: one RefRoot per reference that git reports, carrying the
+// walk decision and the groups Categorize gave for its name; an error of the
+// reference iterator ends the collection with that error (C10).
+//@ iface RefGrouper.Categorize
+//@   pure
+//@ func CollectReferences
+//@   modifies everything
+//@   call 0 ReferenceIter).Next as nx
+//@   call 0 Categorize as cat
+//@   loop 0 step nx1 && nx2 == nil
+//@   loop 0 step len(refsSeen) == prev(len(refsSeen)) + 1
+//@   loop 0 step refsSeen[len(refsSeen)-1].walk == cat0 && same(refsSeen[len(refsSeen)-1].groups, cat1) && same(refsSeen[len(refsSeen)-1].ref.Refname, nx0.Refname) && refsSeen[len(refsSeen)-1].ref.OID == nx0.OID
+//@   loop 0 step forall k int :: 0 <= k && k < prev(len(refsSeen)) ==> same(refsSeen[k], prev(refsSeen)[k])
+//@   ensures result1 == nil ==> !nx1 && nx2 == nil
+//@   ensures result1 != nil ==> len(result0) == 0
+
+// RegisterReference: the reference count moves by one and every group symbol
+// of the reference is tallied exactly once (ghost call counter).
+//@ func (*Graph).RegisterReference
+//@   modifies g.historySize.ReferenceCount, map(g.historySize.ReferenceGroups), typemem(counts.Count32)
+//@   ghost nGroup counts recordReferenceGroup
+//@   loop 0 invariant nGroup == rangeindex + 1
+//@   ensures nGroup == len(groups)
+
+//@ func (RefRoot).Walk
+//@   pure
+//@   ensures result == rr.walk
+//@ func (RefRoot).OID
+//@   pure
+//@   ensures result == rr.ref.OID
+//@ func (ExplicitRoot).Walk
+//@   pure
+//@   ensures result
+//@ func (ExplicitRoot).OID
+//@   pure
+//@   ensures result == er.oid
+
+//@ property C07: CollectReferences (*Graph).RegisterReference
+//@ property C01: (RefRoot).Walk (RefRoot).OID (ExplicitRoot).Walk (ExplicitRoot).OID CollectReferences
+//@ property C10: CollectReferences
+//@ axiom root_refroot [definition]: forall r Iface :: dyntype(r, "sizes.RefRoot") ==> rootWalk(r) == unbox(r, "sizes.RefRoot").walk && rootOID(r) == unbox(r, "sizes.RefRoot").ref.OID
+//@ axiom root_explicit [definition]: forall r Iface :: dyntype(r, "sizes.ExplicitRoot") ==> rootWalk(r) && rootOID(r) == unbox(r, "sizes.ExplicitRoot").oid
